@@ -24,10 +24,16 @@ def native_replay(rp, workroot):
     from engine.core import replay_bin
     # single-event case: one big incompressible event; multi-event case: many events (real zstd adds ~13 bytes per event,
     # the model allows the documented worst case, so a per-transaction allowance only shows natively with dozens of events)
-    if rp["harness"] == "c19_one_event":
-        return replay_bin("c19", [1000, 1], crate="replay-cluster", timeout=3000)
-    return replay_bin("c19", [160, 40], crate="replay-cluster", timeout=3000)
-
+    # bounded native search over payload sizes: large (always compressed), and the band where the variable part of an
+    # event is below seglog's compression threshold while the whole encoded record is above it (seed C19-2)
+    cands = [(1000, 1), (100, 1), (60, 1)] if rp["harness"] == "c19_one_event" else [(160, 40), (100, 2), (60, 3)]
+    last = (False, "no candidate run")
+    for plen, nev in cands:
+        ok, detail = replay_bin("c19", [plen, nev], crate="replay-cluster", timeout=3000)
+        if ok:
+            return ok, f"payload {plen} x {nev} event(s): " + detail
+        last = (ok, detail) if ok is None or last[0] is not None else last
+    return last
 
 def spec(tier, seed):
     enc = ("sierradb::writer_thread_pool::Worker::handle_append_events (estimate + rollover decision)", "sierradb::bucket::segment::{EVENT_HEADER_SIZE,COMMIT_SIZE,SEGMENT_HEADER_SIZE}")
